@@ -22,8 +22,9 @@ class ExecError(Exception):
 
 
 class Exec:
-    def __init__(self, outputs=("A",), max_steps=200000, concrete=None):
+    def __init__(self, outputs=("A",), max_steps=200000, concrete=None, extents=None):
         self.concrete = concrete or {}  # input arrays used as indices: name -> {index tuple: int}
+        self.extents = extents or {}    # kernel arguments / static tables: name -> shape (reads and writes are bounds-checked)
         self.mem: dict[tuple, Rat] = {}       # (array name, index tuple) -> value
         self.scalars: dict[str, Rat] = {}     # assigned / declared scalars
         self.local_arrays: dict[str, tuple] = {}  # name -> sizes
@@ -100,6 +101,7 @@ class Exec:
             if v is None:
                 raise ExecError(f"read of uninitialised element {name}{list(idx)}")
             return v
+        self.check_extent(name, idx)
         if (name, idx) in self.mem:
             return self.mem[(name, idx)]
         if name in self.concrete:
@@ -108,6 +110,12 @@ class Exec:
             return Rat.const(self.concrete[name][idx])
         self.reads.add(name)
         return Rat.var(f"{name}{list(idx)}")
+
+    def check_extent(self, name, idx):
+        if name in self.extents:
+            shape = self.extents[name]
+            if len(shape) != len(idx) or any(not (0 <= i < s_) for i, s_ in zip(idx, shape)):
+                raise ExecError(f"{name}{list(idx)} is outside the extent {list(shape)} the contract / declaration gives it")
 
     def bounds(self, name, idx):
         sizes = self.local_arrays[name]
@@ -123,6 +131,7 @@ class Exec:
             idx = tuple(self.index(i) for i in lhs.f["indices"])
             if name in self.local_arrays:
                 self.bounds(name, idx)
+            self.check_extent(name, idx)
             return ("array", name, idx)
         raise AnalysisError(f"lnexec: assignment target {lhs.cls}")
 
@@ -225,8 +234,8 @@ def _flatten(v):
     return [v]
 
 
-def meaning(prog, outputs=("A",), concrete=None):
-    ex = Exec(outputs, concrete=concrete)
+def meaning(prog, outputs=("A",), concrete=None, extents=None):
+    ex = Exec(outputs, concrete=concrete, extents=extents)
     ex.run(prog)
     return ex.result(), ex
 
